@@ -49,6 +49,11 @@ def run(ctx):
             # DER times carry no fractional seconds and use the prescribed form: the shared time helpers' rules
             import c09
             common.borrow_rules(rep, lambda: (c09.single(cfg, crate, rep), c09.helper(cfg, crate, rep)), "C09.", "C04.time")
+        if cfg == "K1":
+            # "restricted strings within their alphabets": the admission predicates of the string wrappers and the
+            # wrapper -> writer pairing
+            import c13
+            common.borrow_rules(rep, lambda: (c13.alpha(cfg, crate, rep), c13.sink(cfg, crate, rep)), "C13.", "C04.strings")
         arts = [common.artefact(crate, f) for f in (CERT_FN, CSR_FN, CRL_FN)]
         rep.fn(CERT_FN, CSR_FN, CRL_FN, SIGN_DER, "key_pair::serialize_public_key_der")
         nb = nbits = nset = nint = nraw = 0
